@@ -39,6 +39,7 @@ type Options struct {
 }
 
 type Machine struct {
+	fillerCtr   uint64
 	refusedSeen int
 	forceProbe  bool
 	W           *world.World
@@ -1283,6 +1284,20 @@ func (m *Machine) opRestore(t *rapid.T) bool {
 	if len(msgs) == 0 {
 		return false
 	}
+	// one request in twelve is a bulk request: hundreds of never-signed outputs in front of, between or behind the
+	// drawn ones (wallets restore in batches of a hundred; nothing says a client may not send more)
+	if rapid.IntRange(0, 11).Draw(t, "rs_bulk") == 0 {
+		k := rapid.SampledFrom([]int{150, 400, 1100}).Draw(t, "rs_bulk_n")
+		at := rapid.IntRange(0, len(msgs)).Draw(t, "rs_bulk_at")
+		filler := make(cashu.BlindedMessages, k)
+		for i := range filler {
+			m.fillerCtr++
+			filler[i] = cashu.BlindedMessage{Amount: 1, B_: fmt.Sprintf("02%064x", 0xf111e5<<32+m.fillerCtr), Id: w.ActiveID}
+		}
+		msgs = append(msgs[:at:at], append(filler, msgs[at:]...)...)
+		m.Count["restore_bulk_request"]++
+		kinds[fmt.Sprintf("bulk_filler_%d", k)] = k
+	}
 	outs, sigs, err := w.Restore(msgs)
 	if err != nil {
 		m.logf("restore %d outputs: err=%v", len(msgs), err)
@@ -1358,6 +1373,19 @@ func (m *Machine) opCheckStateAdv(t *rapid.T) bool {
 	}
 	if len(ys) == 0 {
 		return false
+	}
+	// one query in twelve is a bulk query: hundreds of unknown Ys in front of, between or behind the drawn ones
+	if rapid.IntRange(0, 11).Draw(t, "csa_bulk") == 0 {
+		k := rapid.SampledFrom([]int{150, 400, 1100}).Draw(t, "csa_bulk_n")
+		at := rapid.IntRange(0, len(ys)).Draw(t, "csa_bulk_at")
+		filler := make([]string, k)
+		for i := range filler {
+			m.fillerCtr++
+			filler[i] = fmt.Sprintf("02%064x", 0xf111e5<<32+m.fillerCtr)
+		}
+		ys = append(ys[:at:at], append(filler, ys[at:]...)...)
+		m.Count["checkstate_bulk_query"]++
+		kinds[fmt.Sprintf("bulk_filler_%d", k)] = k
 	}
 	got, err := w.CheckState(ys)
 	if err != nil {
